@@ -18,7 +18,7 @@ EXTENDS Alloc
 (*   share, ports, etp "Cluster"|"Local", sel, reqIPs (seq), reqPool,       *)
 (*   bad (spec.loadBalancerIP is not a parsable address), dep, legacy]      *)
 
-BackendKey(sp) == IF sp.etp = "Local" THEN sp.sel ELSE ""
+BackendKey(sp) == IF sp.etp = "Local" THEN "local:" \o sp.sel ELSE ""   \* (prefix: fix e25dcb0)
 ReqOf(sp) == [ports |-> sp.ports, sk |-> sp.share, bk |-> BackendKey(sp),
               fam |-> sp.fam, pol |-> sp.pol, v6first |-> sp.v6first]
 
